@@ -83,3 +83,8 @@ impl Splitter {
         Ok(self.hits)
     }
 }
+
+/// C06-P4: a received name rebuilt from its components (normalising).
+pub fn lossy_path(p: &std::path::Path) -> std::path::PathBuf {
+    p.components().collect()
+}
